@@ -138,6 +138,9 @@ def render(rnd, prog, unit='    ', comments=True, loose=True, minus_pattern=None
     for level, toks in prog:
         if comments and rnd.random() < .15:
             out.append(unit * rnd.choice([level, level, 0]) + '# note, (x' + rnd.choice(['', ' '])) if rnd.random() < .7 else out.append(rnd.choice(['', '  ']))
+            # comment lines in a row (a header of several lines, a block of notes between two statements), blank lines among them
+            while rnd.random() < .4:
+                out.append(rnd.choice([unit * level + '# more', '# col 0', '', unit * (level + 1) + '#']))
         s = indent_of(level)
         prev = None
         for t in toks:
